@@ -328,7 +328,8 @@ func writeReplay(rep *Report, o *ObligResult, opts *Options) string {
 		doc["solver_status"] = o.FailRes.Status
 		doc["solver_output"] = truncate(o.FailRes.Output, 20000)
 		doc["model"] = truncate(o.FailRes.Model, 20000)
-		if o.FailRes.Status == "sat" && o.Fail != nil && o.Fail.Replay != nil {
+		if o.FailRes.Status == "sat" && o.Fail != nil && o.Fail.Replay != nil && rep.replays < 6 {
+			rep.replays++
 			rd, confirmed := o.Fail.Replay(o.FailRes.Model, opts)
 			doc["replay_on_real_code"] = rd
 			doc["replay_confirmed"] = confirmed
